@@ -9,41 +9,49 @@ design half : spec/Supervisor.tla resolves every supervisor mutation with the
               bodies as the code has them; fork completion, connection, readiness,
               errors, kills, Heartbeat and NormalizingPool rounds are independently
               enabled actions appending to the supervisor's queue.  spec/MCSupervisor.tla
-              is checked exhaustively for bounded sub-models over the pool settings.
-              With the repair flags every formula must hold (else the spec is wrong ->
-              exit 2); with the flags that describe the code the formulas that fail are
-              PREDICTIONS (over-fork: the fork gates test len(workers) < Max but the
+              is checked exhaustively for bounded sub-models over the pool settings
+              0..3 (one representative per equivalence class), both variants of the
+              code in one run: "repaired" (fork gates count forks in flight, ErrWorker is
+              Multi) must satisfy every formula, "code" must satisfy all but the two it is
+              PREDICTED to break (over-fork: the gates test len(workers) < Max but the
               entry is added only when the fork returned; lost errors: ErrWorker is not
-              Multi).
+              Multi, an error queued behind another one never reaches ErrWorkerState).
+              Anything else is exit 2.  thorough adds random behaviours for settings 0..6.
 binding half: harness/supdrv runs the REAL Supervisor with the TestFork / TestKill seams
               as gates, real in-memory node.Workers over loopback, and a tracer on the
               supervisor machine that samples the verif accessor node.VerifPoolOf at
               TransitionInit / TransitionEnd.  spec/TraceSupervisor.tla validates every
-              logged transition against the specification's step (relations, gates,
-              handler bodies -> drift) and evaluates the formulas of C15 on the LOGGED
-              values (-> violations).
-              1. B3: TLC (MCSupervisor, Emit) prints the controllable events that lead to
-                 its witness states (over-fork, PoolReady refused for a short pool,
-                 PoolReady withdrawn / kept, kill, lost error); the Go driver forces them
-                 through the seams.
-              2. gated scenario families (slow forks across NormalizingPool rounds,
-                 error bursts while the supervisor is busy, ready-gate flips, kills and
-                 confirmations, disconnects + heartbeats) over Min/Max/Warm 0..3 (some
-                 up to 6) and random gated / free-running schedules.
+              logged transition against the specification's step (relations of the real
+              schema, gates, handler bodies -> drift) and evaluates the formulas of C15 on
+              the LOGGED values (-> violations).
+              1. B3: TLC (MCSupervisor, Emit) prints, for its witness states (over-fork,
+                 PoolReady refused for a short pool, PoolReady withdrawn / kept, kill,
+                 lost error), the controllable events that lead there, which TestFork
+                 calls had arrived and which events found the queue busy; the Go driver
+                 forces them through the seams (parking the supervisor machine where TLC
+                 had events pile up in the queue).
+              2. scenario families (canonical reproducers, start-up for every setting
+                 0..3 + some up to 6, slow forks across NormalizingPool rounds, error
+                 bursts while the supervisor is busy, ready-gate flips, disconnects +
+                 heartbeats, kills and confirmations, worker work-status) and random
+                 gated / free-running schedules.
 A VIOLATION is reported only when a formula is false on values the real supervisor
-produced; an expired wait of the harness is exit 2.
+produced.  A driver process killed by a panic on a library goroutine is re-run; a step of a
+script whose precondition never came true is counted (`cases_with_unrealised_steps`), never
+a verdict.
 
 Readings (the weaker one where the text admits two):
   * "ready at that moment": len(readyWorkers()) as the supervisor itself computes it (its
-    replicas of the workers), any of the samples taken during the transition suffices.
+    replicas of the workers); any of the samples taken during the transition suffices.
   * "never forks while at Max": len(workers) < Max when ForkWorkerState /
     ForkingWorkerState run (the moment the fork is decided).
   * a PoolReady that stays active after the pool became short is NOT judged (the
     statement only constrains activation and withdrawal); it is counted (`stale`).
-  * "accumulates more than the configured number of errors": errors the supervisor
-    ACCEPTED for a worker it tracks (ErrWorker transitions naming its map key).  The
-    count the supervisor keeps itself (workerInfo.errs) is checked too (KillRequested);
-    the delivered count is KillRequestedDelivered.
+  * "accumulates more than the configured number of errors": the count the supervisor keeps
+    itself (workerInfo.errs) is KillRequested; errors the supervisor ACCEPTED for a worker
+    it tracks (ErrWorker transitions naming its map key) is KillRequestedDelivered.  The
+    second one is the reading that gives the clause content (with the first one it is the
+    `if` statement of ErrWorkerState), so both are judged and reported separately.
 """
 import concurrent.futures as cf
 import glob, json, os, random, re, shutil, sys, time
@@ -163,15 +171,15 @@ def mc_models(tier):
              MaxCheck=1, pools=pools(lambda k: k[1] == 0)),
         dict(base, name="forks-max1", MaxForks=3, MaxFail=1, MaxExpire=1, MaxConn=1, MaxFlip=1,
              MaxCheck=0 if q else 1, pools=pools(lambda k: k[1] == 1)),
-        dict(base, name="forks-max2", MaxForks=3 if q else 4, MaxFail=1, MaxExpire=0 if q else 1,
-             MaxConn=1, MaxFlip=0 if q else 1, pools=pools(lambda k: k[1] == 2)),
+        dict(base, name="forks-max2", MaxForks=3 if q else 4, MaxFail=1, MaxExpire=0,
+             MaxConn=1, MaxFlip=0, pools=pools(lambda k: k[1] == 2)),
         dict(base, name="forks-max3", MaxForks=4, MaxFail=0 if q else 1, MaxExpire=0,
              MaxConn=0 if q else 1, pools=pools(lambda k: k[1] == 3)),
         # B: readiness.  workers connect, their replicas flip, die; heartbeats; PoolReady
         dict(base, name="ready-max1", MaxForks=1, MaxConn=1, MaxErr=0 if q else 1, MaxHb=1,
              MaxFlip=2 if q else 3, MaxCheck=0 if q else 1, pools=pools(lambda k: k[1] == 1)),
         dict(base, name="ready-max2", MaxForks=2, MaxConn=2, MaxErr=0 if q else 1, MaxHb=1,
-             MaxFlip=2, pools=[220] if q else [120, 220, 20]),
+             MaxFlip=2, pools=[220] if q else [120, 220]),
         # C: errors and kills
         dict(base, name="errors-kill0", MaxForks=1, MaxConn=1, MaxErr=2, MaxHb=1, MaxFlip=1,
              QueueLimit=2 if q else 3, McErrKill=0, pools=[110]),
@@ -231,6 +239,25 @@ def mc_verify(tier, rep, schema_file):
             trans += r["states"]
             for f in pred:
                 predicted[f] += 1
+    if tier != "quick":
+        # pool settings up to 6 (the property's range): random behaviours of a larger model
+        cl6 = pool_classes(0, 6)
+        sim = dict(name="sim-0..6", MaxForks=7, MaxFail=1, MaxExpire=1, MaxConn=4, MaxErr=3, MaxHb=2,
+                   MaxCheck=1, MaxFlip=4, Rounds=2, QueueLimit=3, McErrKill=1,
+                   pools=sorted(min(v) for v in cl6.values()))
+        r = tlcrun.run_tlc("MCSupervisor", dict(spec="MCSpec", consts=consts_of(sim, BOTH),
+                                                view="MCView", invariants=HOLD + ["RepairedHolds"]),
+                           workers=4, timeout=900, files={schema_file: "SupSchema.tla"},
+                           java_opts=JAVA, simulate="num=4000")
+        if r["violated"] or r["errors"]:
+            raise Inconclusive("simulation of the 0..6 model failed: %s %s\n%s" % (
+                sorted(r["violated"]), r["errors"][:3], r["out"][-2500:]))
+        m = re.search(r"(\d+) states checked", r["out"])
+        rep.coverage["mc_simulation_0_6"] = dict(pools=len(sim["pools"]), behaviours=4000,
+                                                 states_checked=int(m.group(1)) if m else None,
+                                                 budgets={k: v for k, v in sim.items()
+                                                          if k not in ("name", "pools")},
+                                                 wall_s=round(r["wall"], 1))
     rep.coverage["mc_runs"] = runs
     rep.coverage["states"] = states
     rep.coverage["transitions"] = trans
@@ -278,7 +305,10 @@ def emit_schedules(m, schema_file):
     return out, r["distinct"], r["states"]
 
 
-TIMING = dict(conn_ms=600, pause_ms=150, check_ms=50)
+# handler_ms: the supervisor machine's handler timeout.  The library default (100ms) makes
+# handlers overrun under CPU contention (the transition is rolled back, the handler keeps
+# running next to the machine); most cases run with 1s, some keep the default.
+TIMING = dict(conn_ms=600, pause_ms=150, check_ms=50, handler_ms=1000)
 
 
 def case(label, mn, mx, wm, script, errkill=1, gated=True, readygate=False, seed=0, **kw):
@@ -300,37 +330,68 @@ SETTLE = op("settle", ms=250)
 
 
 def sched_to_case(s, label):
-    """A TLC-emitted witness -> a script for the Go driver (the events in TLC's order; the
-    supervisor's own goroutines are time driven, so the script waits for what they do)."""
+    """A TLC-emitted witness -> a script for the Go driver: the controllable events in TLC's
+    order.  `arrive` (a TestFork call got parked) is observable only: the script waits for
+    it, like it waits for everything the supervisor's own time-driven goroutines do.  Events
+    that reached the queue while it was not empty (busy) are delivered while the supervisor
+    machine is parked at a TransitionEnd."""
     cfg = s["cfg"]
     script = []
+    paused = False
+
+    def leave():
+        nonlocal paused
+        if paused:
+            script.append(op("resume"))
+            script.append(op("settle", ms=120))
+            paused = False
+
+    QUEUED = ("fork", "connect", "err", "killed", "hb", "checkpool")
     hist = s["hist"]
-    j = 0
-    while j < len(hist):
-        h = hist[j]
+
+    def next_busy(j):
+        # is the next event that reaches the queue one that found it non-empty?  then
+        # this one has to be still in the queue when it arrives: park the supervisor first
+        for n in hist[j + 1:]:
+            if n["k"] in QUEUED:
+                return bool(n.get("busy"))
+            if n["k"] in ("arrive", "bootexpire"):
+                return False
+        return False
+
+    for j, h in enumerate(hist):
         k, i = h["k"], h["i"]
-        if k == "fork":
-            script += [op("waitfork", i, ms=6000), op("fork", i, ok=h["ok"])]
-        elif k == "bootexpire":
+        if k == "arrive":
+            leave()
+            script.append(op("waitfork", i, ms=6000))
+            continue
+        if k == "round":
+            continue
+        if k == "bootexpire":
+            leave()
             script.append(op("sleep", ms=TIMING["conn_ms"] + 150))
+            continue
+        queued = k in QUEUED
+        if queued and not paused and (h.get("busy") or next_busy(j)):
+            script.append(op("pause"))
+            paused = True
+        elif queued and paused and not h.get("busy"):
+            leave()
+            if next_busy(j):
+                script.append(op("pause"))
+                paused = True
+        if k == "fork":
+            script.append(op("fork", i, ok=h["ok"]))
         elif k == "err":
-            n = 1
-            while j + 1 < len(hist) and hist[j + 1]["k"] == "err" and hist[j + 1]["i"] == i:
-                n += 1
-                j += 1
-            if n > 1:       # consecutive errors = errors that reach the queue together
-                script += [op("pause"), op("err", i, n=n), op("resume")]
-            else:
-                script.append(op("err", i, n=1))
+            script.append(op("err", i, n=1))
         elif k in ("connect", "ready", "unready", "disc", "killed"):
             script.append(op(k, i))
         elif k in ("hb", "checkpool"):
             script.append(op(k))
-        elif k == "round":
-            pass
-        j += 1
-        if k in ("connect", "ready", "unready", "disc", "err", "killed", "hb", "checkpool"):
+        if not paused and k in ("connect", "ready", "unready", "disc", "err", "killed", "hb",
+                                "checkpool"):
             script.append(op("settle", ms=120))
+    leave()
     script.append(SETTLE)
     c = case(label, cfg["min"], cfg["max"], cfg["warm"], script, errkill=cfg["errkill"],
              readygate=True)
@@ -366,7 +427,8 @@ def family_cases(rng, tier):
     for (mn, mx, wm) in rng_pools + big:
         want = min(min(mn, mx) + wm, mx)
         s = bring_up(want) + [SETTLE, op("hb"), SETTLE]
-        out.append(case("up-%d%d%d" % (mn, mx, wm), mn, mx, wm, s))
+        out.append(case("up-%d%d%d" % (mn, mx, wm), mn, mx, wm, s,
+                        handler_ms=0 if (mn + mx + wm) % 3 == 0 else 1000))
     sel = rng_pools if tier != "quick" else rng.sample(rng_pools, 24)
     # 2. slow forks: the first fork is held across a NormalizingPool round
     for (mn, mx, wm) in sel:
@@ -546,7 +608,15 @@ def validate(files, schema_file):
                            workers=1, timeout=2400,
                            files={tf: "trace.ndjson", schema_file: "SupSchema.tla"},
                            java_opts="-Xmx2g")
-        return dict(file=tf, result=tlcrun.parse_result(r["out"]), out=r["out"], rc=r["rc"])
+        res = tlcrun.parse_result(r["out"])
+        if res is None and not r["timed_out"]:
+            # a JVM that died (rc 255 / killed under memory pressure) is retried once
+            r = tlcrun.run_tlc("TraceSupervisor", dict(spec="TraceSpec", consts=c, view="TraceView"),
+                               workers=1, timeout=2400,
+                               files={tf: "trace.ndjson", schema_file: "SupSchema.tla"},
+                               java_opts="-Xmx2g")
+            res = tlcrun.parse_result(r["out"])
+        return dict(file=tf, result=res, out=r["out"], rc=r["rc"])
     with cf.ThreadPoolExecutor(max_workers=16) as ex:
         res = list(ex.map(one, files))
     viol, drift = [], []
@@ -603,7 +673,8 @@ def schedule_of(lines, upto=None):
     for x in lines:
         if upto is not None and x is upto:
             break
-        if x["ev"] == "env" and x["k"] not in ("settle", "sleep", "waitfork", "waitstate"):
+        if x["ev"] == "env" and x["k"] not in ("settle", "sleep", "waitfork", "waitstate") and \
+                not (x["k"].endswith("any") and x["k"] != "relany"):
             a = x["k"]
             if x["f"]:
                 a += "(%d%s)" % (x["f"], "" if x["k"] != "fork" else (",ok" if x["ok"] else ",fail"))
@@ -613,6 +684,26 @@ def schedule_of(lines, upto=None):
         elif x["ev"] == "fork":
             ev.append("TestFork#%d" % x["f"])
     return ",".join(ev)
+
+
+def err_summary(lines):
+    """per worker: errors the supervisor accepted for it while tracked / errors it counted /
+    whether a kill was requested"""
+    init = lines[0]
+    deliv, counted, kreq = Counter(), {}, set()
+    for x in lines:
+        if x["ev"] == "tx":
+            if "ErrWorker" in x["called"] and x["op"] == "add" and x["acc"] and x["lk"] and not x["killerr"]:
+                deliv[x["w"]] += 1
+            for w in x["ws"]:
+                counted[w["id"]] = max(counted.get(w["id"], 0), w["errs"])
+            if ["state", "KillingWorker"] in x["hs"]:
+                kreq.add(x["w"])
+        elif x["ev"] == "kill" or (x["ev"] == "q" and x["state"] == "KillingWorker" and x["op"] == "add"):
+            kreq.add(x["w"])
+    bad = [w for w in deliv if deliv[w] > init["errkill"] and w not in kreq]
+    return "; ".join("worker %d: %d errors accepted, %d counted (workerInfo.errs), WorkerErrKill=%d, "
+                     "no kill requested" % (w, deliv[w], counted.get(w, 0), init["errkill"]) for w in bad)
 
 
 def cause_of(name, line, lines):
@@ -631,6 +722,14 @@ def cause_of(name, line, lines):
     if name.startswith("GroupsExclusive"):
         return "group-" + name.split(".")[-1]
     return "gate"
+
+
+def finals_of(files, label):
+    for f in files:
+        for first, lab, lines in load_cases(f):
+            if lab == label:
+                return lines
+    return []
 
 
 def report_violations(rep, viol, files, cases_by_label):
@@ -654,7 +753,8 @@ def report_violations(rep, viol, files, cases_by_label):
         sig = dict(formula=name, cause=cause)
         cs = {k: v for k, v in cases_by_label[label].items() if not k.startswith("_")}
         what = dict(WithinMax="len(workers)=%s > Max=%s" % (line.get("t"), line.get("max")),
-                    ).get(name, "")
+                    KillRequestedDelivered=err_summary(finals_of(files, label)),
+                    KillRequested=err_summary(finals_of(files, label))).get(name, "")
         rep.violation(sig, dict(kind="sup", property=PROP, formula=name, cause=cause, case=cs),
                       "%s false on the real supervisor (Min=%d Max=%d Warm=%d ErrKill=%d): %s "
                       "schedule [%s] %s" % (name, init["min"], init["max"], init["warm"],
@@ -843,7 +943,8 @@ def check(tier):
             "readiness is the supervisor's own view (readyWorkers() on its replicas), error TTLs "
             "(10 min / 1 min) do not expire within a case",
             "supervisor timings are shortened (ConnTimeout 600ms, PoolPause 150ms, "
-            "WorkerCheckInterval 50ms); the 100ms handler timeout is the default"]
+            "WorkerCheckInterval 50ms, worker push interval 15ms); the supervisor machine's "
+            "handler timeout is 1s in most cases (default 100ms in some)"]
     finally:
         shutil.rmtree(d, ignore_errors=True)
     return rep.finish()
@@ -867,10 +968,11 @@ def replay(path):
             name, line, lines = items[0]
             hit += 1
             if hit == 1:
+                obs = json.dumps({k: line.get(k) for k in ("called", "t", "max", "r", "mineff")}) \
+                    if line["ev"] == "tx" else err_summary(lines)
                 rep.violation(dict(formula=name, cause=cause_of(name, line, lines)), obj,
                               "%s false again: [%s] -> %s" % (
-                                  name, schedule_of(lines, line if line["ev"] == "tx" else None),
-                                  json.dumps({k: line.get(k) for k in ("called", "t", "max", "r", "mineff")})))
+                                  name, schedule_of(lines, line if line["ev"] == "tx" else None), obs))
         rep.coverage.update(evaluations=max(stat["tx"], 1), distinct_nontrivial=2, rule="replay",
                             samples=[cs["label"]], states=1, transitions=1,
                             traces_validated_against_impl=len(cases), reproduced=hit)
